@@ -288,6 +288,7 @@ func TestC12_PublicKey(t *testing.T) {
 				parts = append(parts, fmt.Sprintf("%x", scalarBytes(xi)))
 				sum.Set(xi)
 			}
+			warmKeys(g, "warm", sks) // a generated subset of the inputs already had PublicKey() called (lazy cache)
 			var err error
 			sk, err = crypto.AggregateBLSPrivateKeys(sks)
 			if err != nil || sk == nil {
